@@ -1411,7 +1411,8 @@ func (m *Machine) opCheckStateAdv(t *rapid.T) bool {
 	}
 	// one query in twelve is a bulk query: hundreds of unknown Ys in front of, between or behind the drawn ones
 	if rapid.IntRange(0, 11).Draw(t, "csa_bulk") == 0 {
-		k := rapid.SampledFrom([]int{150, 400, 1100}).Draw(t, "csa_bulk_n")
+		// (33000: a wallet's whole history in one question - more Ys than one SQL statement takes variables)
+		k := rapid.SampledFrom([]int{150, 400, 1100, 150, 400, 1100, 33000}).Draw(t, "csa_bulk_n")
 		at := rapid.IntRange(0, len(ys)).Draw(t, "csa_bulk_at")
 		filler := make([]string, k)
 		for i := range filler {
